@@ -423,6 +423,10 @@ def enum_large(tier, seed):
         for k in sizes:
             for store in ("segments", "pairs", "both"):
                 yield dict(shape=shape, k=k, store=store, api="ts" if k % 2 else "tables")
+    # more than 64 / 128 sample sets in `between`
+    for shape in ("balanced", "comb"):
+        for nsets in ([65, 130] if tier == "quick" else [63, 64, 65, 66, 128, 129, 130, 200]):
+            yield dict(shape=shape, k=nsets + nsets // 2, store="both", api="ts", nsets=nsets)
 
 
 def run_large(case, ctx):
@@ -436,7 +440,16 @@ def run_large(case, ctx):
     obj = tables.tree_sequence() if case["api"] == "ts" else tables
     ctx.nt(True)
     ctx.label("shape:" + case["shape"])
-    full = dict(spec=spec, req=dict(mode="default"), min_span=None, max_time=None, store=case["store"], api=case["api"])
+    req = dict(mode="default")
+    if case.get("nsets"):
+        smp = model.samples(spec)
+        ns = case["nsets"]
+        sets = [[] for _ in range(ns)]
+        for i, u in enumerate(smp):
+            sets[i % ns].append(u)
+        req = dict(mode="between", between=sets)
+        ctx.label("between_many_sets")
+    full = dict(spec=spec, req=req, min_span=None, max_time=None, store=case["store"], api=case["api"])
     check_ibd(ctx, tskit, spec, obj, full, label=False)
 
 
